@@ -299,7 +299,20 @@ pub fn search_c03(rng: &mut Rng, thorough: bool) -> SearchResult {
     let mut r = SearchResult::default();
     r.rule = "for every cell of resolution <= 3 against a test set of points (uniform, seams, dodecahedron vertices, poles), and for resolutions up to 29 the candidates gathered from lookups of the point and of 40 perturbed copies: the number of cells that strictly contain the point (containment positive and more than 1e-11 inside) is at most one, and exactly one for points not on a cell edge. non-trivial = distinct (point, resolution) pairs".into();
     // exhaustive small resolutions
-    let pts: Vec<(f64, f64)> = (0..(if thorough { 3000 } else { 400 })).map(|_| lookup_point(rng)).collect();
+    let mut pts: Vec<(f64, f64)> = (0..(if thorough { 3000 } else { 400 })).map(|_| lookup_point(rng)).collect();
+    // regression (fixed defect D15): a point on the symmetry line through two face centres, 65 degrees from face 10,
+    // which the extrapolated projection of face 10 placed inside that face's cells; and more points of that kind:
+    // within 3 degrees of a face centre, given with a longitude outside the principal range (other ulps)
+    pts.push((-202.99679991971345, -26.06904491161763));
+    for k in 0..(if thorough { 600 } else { 120 }) {
+        let o = &a5::core::origin::get_origins()[k % 12];
+        let (t, p) = (o.axis.theta().get() + (rng.unit() - 0.5) * 0.1, (o.axis.phi().get() + (rng.unit() - 0.5) * 0.1).abs());
+        let ll = a5::core::coordinate_transforms::to_lon_lat(a5::coordinate_systems::Spherical::new(
+            a5::coordinate_systems::Radians::new_unchecked(t),
+            a5::coordinate_systems::Radians::new_unchecked(p),
+        ));
+        pts.push((ll.longitude() + 360.0 * (rng.range_i(-2, 2) as f64), ll.latitude().clamp(-90.0, 90.0)));
+    }
     for res in 0..=(if thorough { 4 } else { 3 }) {
         let all = a5::uncompact(&[0], res).unwrap();
         for &(lon, lat) in &pts {
